@@ -41,6 +41,29 @@ def run(ctx: Ctx) -> None:
         b = call.args[1] if len(call.args) > 1 else None
         ok = isinstance(a, ast.Constant) and isinstance(b, ast.Constant) and bmap.get(a.value) == b.value
         why = "" if ok else f"({short(a)}, {short(b)}) is not an opener/closer pair of _balanced_token_map"
+        if not ok and a is not None and b is not None and not isinstance(a, ast.Constant):
+            # (<type of the token just read>, <the map's closer for that type>): a pair for every opener the token can be
+            cfg = pm.cfg(fname)
+            n = node_containing(cfg, call)
+            rd_ = reaching_defs(cfg)
+            bexpr = b
+            if isinstance(b, ast.Name) and n is not None:
+                ds = list(rd_.get(n.id, {}).get(b.id, ()))
+                if len(ds) == 1 and isinstance(cfg.nodes[ds[0]].stmt, ast.Assign):
+                    bexpr = cfg.nodes[ds[0]].stmt.value
+            aexpr = a
+            if isinstance(a, ast.Name) and n is not None:
+                ds = list(rd_.get(n.id, {}).get(a.id, ()))
+                if len(ds) == 1 and isinstance(cfg.nodes[ds[0]].stmt, ast.Assign):
+                    aexpr = cfg.nodes[ds[0]].stmt.value
+            is_lookup = isinstance(bexpr, ast.Subscript) and norm(bexpr.value) in ("self._balanced_token_map", "token_map") and norm(bexpr.slice) in (norm(a), norm(aexpr))
+            ch = attr_chain(aexpr)
+            if is_lookup and ch and len(ch) == 2 and ch[1] == "type" and n is not None:
+                c_ = _typefacts(pm, fname).at(n, ch[0])
+                if c_[0] == "in" and c_[1] and set(c_[1]) <= set(bmap):
+                    ctx.ob("R13.1", f"parser:CxxParser.{fname}|_discard_contents({short(a)}, {short(b)}) #{_site_idx(pm, fname, call)}", True, node=call, mod=mod, detail={"openers": sorted(c_[1])})
+                    continue
+                why = f"the token whose type opens the skipped region is not known to be an opener here (possible types: {sorted(c_[1]) if c_[0] == 'in' else 'anything'})"
         if ok:
             cfg = pm.cfg(fname)
             n = node_containing(cfg, call)
